@@ -2229,6 +2229,9 @@ func (d *Data) ReceiveBlocks(ctx *datastore.VersionedCtx, r io.ReadCloser, scale
 		if readErr == io.EOF {
 			break
 		}
+		if readErr != nil {
+			return fmt.Errorf("error reading block header at byte %d: %v", pos, readErr)
+		}
 	}
 
 	wg.Wait()
